@@ -1264,15 +1264,17 @@ impl SolarDay {
   /// ```
   pub fn get_nine_day(&self) -> Option<NineDay> {
     let year: isize = self.get_year();
-    let mut start: SolarDay = SolarTerm::from_index(year + 1, 0).get_julian_day().get_solar_day();
-    if self.is_before(start) {
-      start = SolarTerm::from_index(year, 0).get_julian_day().get_solar_day();
+    // 在儒略日数轴上比较，避免构造超出公历范围的日期（公元1年年初的冬至在公元0年，9999年年末数九结束于10000年）
+    let day_number = |t: &SolarTerm| -> f64 { (t.get_julian_day().get_day() + 0.5 + 0.5 / 86400.0).floor() };
+    let today: f64 = self.get_julian_day().get_day() + 0.5;
+    let mut start: f64 = day_number(&SolarTerm::from_index(year + 1, 0));
+    if today < start {
+      start = day_number(&SolarTerm::from_index(year, 0));
     }
-    let end: SolarDay = start.next(81);
-    if self.is_before(start) || !self.is_before(end) {
+    if today < start || today >= start + 81.0 {
       return None;
     }
-    let days: isize = self.subtract(start);
+    let days: isize = (today - start) as isize;
     Some(NineDay::new(Nine::from_index(days / 9), days as usize % 9))
   }
 
@@ -1287,8 +1289,9 @@ impl SolarDay {
   /// let phenology_day: PhenologyDay = SolarDay::from_ymd(2023, 12, 26).get_phenology_day();
   /// ```
   pub fn get_phenology_day(&self) -> PhenologyDay {
-    let term: SolarTerm = self.get_term();
-    let mut day_index: isize = self.subtract(term.get_julian_day().get_solar_day());
+    let term_day: SolarTermDay = self.get_term_day();
+    let term: SolarTerm = term_day.get_solar_term();
+    let mut day_index: isize = term_day.get_day_index() as isize;
     let mut index: isize = day_index / 5;
     if index > 2 {
       index = 2;
@@ -1300,11 +1303,16 @@ impl SolarDay {
   /// 人元司令分野
   pub fn get_hide_heaven_stem_day(&self) -> HideHeavenStemDay {
     let day_counts: [usize;6] = [3, 5, 7, 9, 10, 30];
-    let mut term: SolarTerm = self.get_term();
+    let term_day: SolarTermDay = self.get_term_day();
+    let mut term: SolarTerm = term_day.get_solar_term();
+    let mut day_index: usize = term_day.get_day_index();
     if term.is_qi() {
-      term = term.next(-1);
+      // 中气之日距其前一节令之日的天数，在儒略日数轴上计算（公元1年年初的节令在公元0年）
+      let day_number = |t: &SolarTerm| -> f64 { (t.get_julian_day().get_day() + 0.5 + 0.5 / 86400.0).floor() };
+      let jie: SolarTerm = term.next(-1);
+      day_index += (day_number(&term) - day_number(&jie)) as usize;
+      term = jie;
     }
-    let mut day_index: usize = self.subtract(term.get_julian_day().get_solar_day()) as usize;
     let start_index: usize = (term.get_index() - 1) * 3;
     let data: &str = &"93705542220504xx1513904541632524533533105544806564xx7573304542018584xx95"[start_index..start_index + 6];
     let mut days: usize = 0;
